@@ -61,14 +61,61 @@ theorem CommitOk.pathOk {w : GroupWorld} {sender : Nat} {e : Edits} {nl : Leaf} 
   rw [hb] at this
   exact this
 
+/-- The side conditions of an external commit (those of `Step.commit` for its two tree edits): the HPKE stamp
+of the leaf node the joiner inserts is not a key stamp of the tree after the proposals, and `PathOk` for its update
+path on the tree with that leaf inserted. -/
+def ExtOk (w : GroupWorld) (remove : Option Nat) (L0 nl : Leaf) (fresh : Nat) : Prop :=
+  match batchEdit w.tree (extEdits remove) with
+  | .ok r => L0.hpke ∉ keyStamps r.2 ∧
+      match addLeaf r.2 L0 0 with
+      | .ok r' => PathOk r'.2 r'.1 nl fresh
+      | _ => True
+  | _ => True
+
+instance (w : GroupWorld) (remove : Option Nat) (L0 nl : Leaf) (fresh : Nat) :
+    Decidable (ExtOk w remove L0 nl fresh) := by
+  unfold ExtOk
+  cases batchEdit w.tree (extEdits remove) with
+  | error x => exact inferInstanceAs (Decidable True)
+  | ok r =>
+    have : Decidable (match addLeaf r.2 L0 0 with
+        | .ok r' => PathOk r'.2 r'.1 nl fresh
+        | _ => True) := by
+      cases addLeaf r.2 L0 0 with
+      | error x => exact inferInstanceAs (Decidable True)
+      | ok r' => exact inferInstanceAs (Decidable (PathOk r'.2 r'.1 nl fresh))
+    exact inferInstanceAs (Decidable (_ ∧ _))
+
+theorem ExtOk.fresh0 {w : GroupWorld} {remove : Option Nat} {L0 nl : Leaf} {fresh : Nat} {a : List Nat}
+    {t1 : Tree} (h : ExtOk w remove L0 nl fresh) (hb : batchEdit w.tree (extEdits remove) = .ok (a, t1)) :
+    L0.hpke ∉ keyStamps t1 := by
+  unfold ExtOk at h
+  rw [hb] at h
+  exact h.1
+
+theorem ExtOk.pathOk {w : GroupWorld} {remove : Option Nat} {L0 nl : Leaf} {fresh : Nat} {a : List Nat}
+    {t1 t1x : Tree} {self : Nat} (h : ExtOk w remove L0 nl fresh)
+    (hb : batchEdit w.tree (extEdits remove) = .ok (a, t1)) (hadd : addLeaf t1 L0 0 = .ok (self, t1x)) :
+    PathOk t1x self nl fresh := by
+  unfold ExtOk at h
+  rw [hb] at h
+  have := h.2
+  simp only [hadd] at this
+  exact this
+
 /-- group worlds reachable from a one-member group by commits (any committer, any proposals, with and without
-path, any set of members that receive the commit) -/
+path, any set of members that receive the commit) and external commits (any GroupInfo provider, with and
+without the Remove of a leaf, any set of members that receive it) -/
 inductive Reachable : GroupWorld → Prop
   | init (l : Leaf) : Reachable (GroupWorld.init l)
   | commit {w w' : GroupWorld} {tr : Transcript} {sender : Nat} {e : Edits} {newLeaf : Option Leaf}
       {fresh : Nat} {psk : Sec} {ctx : Nat} {deliverTo : List Nat} :
       Reachable w → CommitOk w sender e newLeaf fresh →
       w.commit sender e newLeaf fresh psk ctx deliverTo = .ok (w', tr) → Reachable w'
+  | ext {w w' : GroupWorld} {tr : Transcript} {gi : Nat} {remove : Option Nat} {L0 nl : Leaf}
+      {fresh : Nat} {psk : Sec} {ctx : Nat} {deliverTo : List Nat} :
+      Reachable w → ExtOk w remove L0 nl fresh →
+      w.externalCommit gi remove L0 nl fresh psk ctx deliverTo = .ok (w', tr) → Reachable w'
 
 /-! ### the invariant -/
 
@@ -101,9 +148,9 @@ theorem processes_iff {w : GroupWorld} {sender : Nat} {e : Edits} {deliverTo : L
   simp [processes, Member.current]
 
 /-- what a successful receiver did -/
-theorem recvPath_ok {t1 : Tree} {o : EncapOut} {seals : List PathSeal} {sender : Nat} {e : Edits}
+theorem recvPathI_ok {init : Sec} {t1 : Tree} {o : EncapOut} {seals : List PathSeal} {sender : Nat} {e : Edits}
     {added : List Nat} {psk : Sec} {ctx : Nat} {m m' : Member}
-    (h : recvPath t1 o seals sender e added psk ctx m = .ok m') :
+    (h : recvPathI init t1 o seals sender e added psk ctx m = .ok m') :
     ∃ d ps r k,
       decap o.tree (provisionalPriv t1 m.priv (ownUpdate e m.priv.self)) sender o.pathKeys added = .ok d ∧
       seals[countSome (o.pathKeys.take (lcaIndex m.priv.self sender))]? = some ps ∧
@@ -111,9 +158,9 @@ theorem recvPath_ok {t1 : Tree} {o : EncapOut} {seals : List PathSeal} {sender :
       (provisionalPriv t1 m.priv (ownUpdate e m.priv.self)).keys[d.slot]? = some (some k) ∧
       chainMatches seals (countSome (o.pathKeys.take (lcaIndex m.priv.self sender))) ps.secret = true ∧
       m' = { m with priv := d.priv, epoch := m.epoch + 1,
-                    secret := .epoch (.initOf m.secret)
+                    secret := .epoch init
                       (pathN (countSome (o.pathKeys.drop (lcaIndex m.priv.self sender))) ps.secret) psk ctx } := by
-  unfold recvPath at h
+  unfold recvPathI at h
   simp only at h
   split at h
   · cases h
@@ -133,6 +180,20 @@ theorem recvPath_ok {t1 : Tree} {o : EncapOut} {seals : List PathSeal} {sender :
       · cases h
     · cases h
   · cases h
+
+theorem recvPath_ok {t1 : Tree} {o : EncapOut} {seals : List PathSeal} {sender : Nat} {e : Edits}
+    {added : List Nat} {psk : Sec} {ctx : Nat} {m m' : Member}
+    (h : recvPath t1 o seals sender e added psk ctx m = .ok m') :
+    ∃ d ps r k,
+      decap o.tree (provisionalPriv t1 m.priv (ownUpdate e m.priv.self)) sender o.pathKeys added = .ok d ∧
+      seals[countSome (o.pathKeys.take (lcaIndex m.priv.self sender))]? = some ps ∧
+      ps.recips[d.ctPos]? = some (r, some k) ∧
+      (provisionalPriv t1 m.priv (ownUpdate e m.priv.self)).keys[d.slot]? = some (some k) ∧
+      chainMatches seals (countSome (o.pathKeys.take (lcaIndex m.priv.self sender))) ps.secret = true ∧
+      m' = { m with priv := d.priv, epoch := m.epoch + 1,
+                    secret := .epoch (.initOf m.secret)
+                      (pathN (countSome (o.pathKeys.drop (lcaIndex m.priv.self sender))) ps.secret) psk ctx } :=
+  recvPathI_ok h
 
 theorem advPath_cases {w : GroupWorld} {sender : Nat} {e : Edits} {deliverTo : List Nat} {t1 : Tree}
     {o : EncapOut} {seals : List PathSeal} {added : List Nat} {psk : Sec} {ctx : Nat} {E : Sec}
@@ -311,5 +372,58 @@ theorem agree_of_cases {w w' : GroupWorld} {E : Sec} (hi : GInv w) (he : w'.epoc
     · omega
     · omega
     · rw [a2, b2]
+
+/-! ### external commits -/
+
+theorem processesExt_iff {w : GroupWorld} {remove : Option Nat} {deliverTo : List Nat} {m : Member} :
+    processesExt w remove deliverTo m = true ↔
+      m.epoch = w.epoch ∧ remove ≠ some m.priv.self ∧ m.priv.self ∈ deliverTo := by
+  simp [processesExt, Member.current, and_assoc]
+
+theorem advExt_cases {w : GroupWorld} {remove : Option Nat} {deliverTo : List Nat} {t1x : Tree}
+    {o : EncapOut} {seals : List PathSeal} {self : Nat} {psk : Sec} {ctx : Nat} {eOld : Sec}
+    {m m' : Member} (h : advExt w remove deliverTo t1x o seals self psk ctx eOld m = .ok m') :
+    (processesExt w remove deliverTo m = false ∧ m' = m) ∨
+    (m.epoch = w.epoch ∧ remove ≠ some m.priv.self ∧ m.priv.self ∈ deliverTo ∧ m.secret = eOld ∧
+      recvPathI (.ext w.epoch) t1x o seals self noEdits [] psk ctx m = .ok m') := by
+  unfold advExt at h
+  cases hp : processesExt w remove deliverTo m with
+  | false =>
+    simp only [hp, Bool.not_false, if_true, Except.ok.injEq] at h
+    exact Or.inl ⟨rfl, h.symm⟩
+  | true =>
+    simp only [hp, Bool.not_true, Bool.false_eq_true, if_false] at h
+    obtain ⟨h1, h2, h3⟩ := processesExt_iff.1 hp
+    by_cases hs : m.secret = eOld
+    · simp only [hs, ne_eq, not_true_eq_false, if_false] at h
+      exact Or.inr ⟨h1, h2, h3, hs, h⟩
+    · simp only [ne_eq, hs, not_false_eq_true, if_true] at h
+      cases h
+
+section Ext
+variable {w w' : GroupWorld} {gi : Nat} {remove : Option Nat} {L0 nl : Leaf} {fresh : Nat} {psk : Sec}
+  {ctx : Nat} {deliverTo : List Nat} {tr : Transcript} {gm : Member} {t1 : Tree} {self : Nat} {t1x : Tree}
+  {o : EncapOut} {ms : List Member}
+
+/-- every party after an external commit is either an unchanged party of the old world, or is in the new epoch
+with the joiner's new epoch secret -/
+theorem ext_member_cases (hi : GInv w)
+    (hc : ExtCommit w gi remove L0 nl fresh psk ctx deliverTo w' tr gm t1 self t1x o ms)
+    {m' : Member} (hm : m' ∈ w'.members) :
+    (m' ∈ w.members ∧ m'.epoch ≤ w.epoch) ∨
+    (m'.epoch = w.epoch + 1 ∧ m'.secret = extSecret w o psk ctx) := by
+  rw [hc.world] at hm
+  simp only [List.mem_append, List.mem_singleton] at hm
+  rcases hm with hm | rfl
+  · obtain ⟨m, hmw, hadv⟩ := (mapE_ok hc.members).1 m' hm
+    rcases advExt_cases hadv with ⟨_, rfl⟩ | ⟨h1, _, _, _, hr⟩
+    · exact Or.inl ⟨hmw, hi.epochs _ hmw⟩
+    · obtain ⟨d, ps, r, k, _, hps, _, _, _, rfl⟩ := recvPathI_ok hr
+      refine Or.inr ⟨by simp [h1], ?_⟩
+      simp only [extSecret]
+      rw [recv_commit_secret hps]
+  · exact Or.inr ⟨rfl, rfl⟩
+
+end Ext
 
 end MlsVerif.Group
